@@ -291,3 +291,33 @@ Definition ex_def : cdef :=
 (* a stored successful result with one output *)
 Definition ex_info (size : N) : fileinfo := mkFI 1 7 33188 size 100 0 (repeat 0 32).
 Definition ex_stored : stored := mkStored 5 false 42 (mkBV VSuccessfulCommand 0 [ex_info 10] []).
+
+(* ---------- symlink commands as definitions ---------- *)
+
+(* SymlinkCommand (lib/BuildSystem/BuildSystem.cpp): configureOutputs accepts exactly one output (otherwise the
+   loader reports an error), but a command written without any "outputs:" key keeps an empty vector, and
+   getSignature() evaluates outputs[0]->getName() unguarded: None = that over-read.
+   link-output-path, repair-via-ownership-analysis, the description and the command's own name are NOT hashed. *)
+Record sdef := mkSdef {
+  s_name : bytes;
+  s_inputs : list bytes;
+  s_outputs : list bytes;
+  s_contents : bytes;
+  s_link_output_path : bytes;            (* empty = not given *)
+  s_repair_via_ownership : bool }.
+
+Definition sdef_sig_tokens (s : sdef) : option (bytes * list token) :=
+  match s_outputs s with
+  | [] => None
+  | out0 :: _ => Some (symlink_sig_tokens out0 (s_contents s) (s_inputs s))
+  end.
+
+(* the parts of a loadable symlink command (exactly one declared output) that the property calls signature
+   relevant: declared outputs, contents (the "argument" of the tool), declared inputs *)
+Definition symlink_wf (s : sdef) : Prop := length (s_outputs s) = 1%nat.
+Definition symlink_relevant (s : sdef) : list bytes * bytes * list bytes := (s_outputs s, s_contents s, s_inputs s).
+
+Definition sdef_sig (H0 : bytes -> N) (HC : N -> token -> N) (s : sdef) : option N :=
+  match sdef_sig_tokens s with Some p => Some (chain_p H0 HC p) | None => None end.
+
+Definition ex_sdef : sdef := mkSdef [76] [[105]] [[60;97;62]] [116] [108;105;110;107] false.
